@@ -25,6 +25,7 @@ import (
 	"time"
 
 	"github.com/ProtonMail/gluon"
+	"github.com/ProtonMail/gluon/async"
 	"github.com/ProtonMail/gluon/db"
 	"github.com/ProtonMail/gluon/imap"
 	"github.com/ProtonMail/gluon/store"
@@ -656,6 +657,92 @@ func pushOrStop(conn *hconn.Conn, up imap.Update, stop <-chan struct{}) bool {
 	}
 }
 
+// ---------- async.QueuedChannel: many queues closed while their readers and producers are busy ----------
+
+var spinSink int64
+
+func spin(n int) {
+	for i := 0; i < n; i++ {
+		atomic.AddInt64(&spinSink, 1)
+	}
+}
+
+// queueStress creates n queues (the per-state update queues, the server's error channel and the watchers are such
+// queues). Each has a reader that answers every item with another Enqueue (a session reading its updates while more
+// arrive); after a few microseconds the queue is closed (Close or CloseAndDiscardQueued) as a session teardown does. The
+// consumer goroutine of every queue has to end (QueuedChannel.Wait returns): one that sleeps in sync.Cond.Wait inside
+// pop after the close has lost its wake-up.
+func queueStress(n int, seed int64) {
+	const workers = 4
+	const batch = 1000
+	var wg sync.WaitGroup
+	var stuck, total int64
+	var detailOnce sync.Once
+	for w := 0; w < workers; w++ {
+		wg.Add(1)
+		go func(w int) {
+			defer wg.Done()
+			rng := rand.New(rand.NewSource(seed*31 + int64(w)))
+			for done := 0; done < n/workers && atomic.LoadInt64(&stuck) == 0; done += batch {
+				ended := make([]chan struct{}, 0, batch)
+				for i := 0; i < batch; i++ {
+					q := async.NewQueuedChannel[int](32, 128, async.NoopPanicHandler{}, "c19-queue-stress")
+					go func() {
+						for range q.GetChannel() {
+							q.Enqueue(1)
+						}
+					}()
+					q.Enqueue(1)
+					spin(100 + rng.Intn(1500))
+					if rng.Intn(4) == 0 {
+						q.Close()
+					} else {
+						q.CloseAndDiscardQueued()
+					}
+					d := make(chan struct{})
+					go func() { q.Wait(); close(d) }()
+					ended = append(ended, d)
+				}
+				atomic.AddInt64(&total, batch)
+				timeout := time.After(10 * time.Second)
+			wait:
+				for i, d := range ended {
+					select {
+					case <-d:
+					case <-timeout:
+						for _, d := range ended[i:] {
+							select {
+							case <-d:
+							default:
+								atomic.AddInt64(&stuck, 1)
+							}
+						}
+						break wait
+					}
+				}
+			}
+		}(w)
+	}
+	wg.Wait()
+	repMu.Lock()
+	rep.Stats["queues-closed"] += int(atomic.LoadInt64(&total))
+	repMu.Unlock()
+	if k := atomic.LoadInt64(&stuck); k > 0 {
+		detailOnce.Do(func() {
+			where := "?"
+			for _, l := range leftover() {
+				if strings.Contains(l, "QueuedChannel") {
+					where = strings.SplitN(l, "\n", 2)[0]
+					fail("leak", "the consumer goroutine of a QueuedChannel did not end within 10 s after Close (racing with Enqueue): "+where,
+						fmt.Sprintf("%d of %d queues\n%s", k, atomic.LoadInt64(&total), l))
+					return
+				}
+			}
+			fail("leak", "the consumer goroutine of a QueuedChannel did not end within 10 s after Close (racing with Enqueue)", fmt.Sprintf("%d of %d queues", k, atomic.LoadInt64(&total)))
+		})
+	}
+}
+
 // ---------- parked connections: one per protocol state, left OPEN by the client until the leak check is over ----------
 
 type parked struct {
@@ -786,6 +873,8 @@ func (logHook) Fire(e *logrus.Entry) error {
 func main() {
 	logrus.SetLevel(logrus.ErrorLevel)
 	logrus.AddHook(logHook{})
+	nQueues := flag.Int("queues", 0, "QueuedChannel stress: number of queues to create and close (0 = skip)")
+	queuesOnly := flag.Bool("queues-only", false, "run only the QueuedChannel stress")
 	debugLog := flag.Bool("debuglog", false, "run gluon with logrus at debug level (formatted, output discarded)")
 	seed := flag.Int64("seed", 1, "seed")
 	flag.StringVar(&out, "out", ".", "output dir")
@@ -796,6 +885,16 @@ func main() {
 		logrus.SetLevel(logrus.DebugLevel)
 	}
 	os.MkdirAll(out, 0o755)
+	if *nQueues > 0 {
+		defer writeReport()
+		queueStress(*nQueues, *seed)
+		if *queuesOnly {
+			repMu.Lock()
+			rep.Complete = true
+			repMu.Unlock()
+			return
+		}
+	}
 	rng := rand.New(rand.NewSource(*seed))
 	// variants of the teardown
 	lateDial := rng.Intn(2) == 0
